@@ -2,7 +2,7 @@
 import ast
 
 from ..model import AnchorError, call_name, const_str, dotted, src
-from ..rules import FuncView, suffix_match, path_condition, formula_equiv
+from ..rules import transparent_override, FuncView, suffix_match, path_condition, formula_equiv
 from . import _framing
 
 EXPLANATION = (
@@ -52,6 +52,8 @@ def deferred_requeued(ctx, rule):
 
 
 def check(ctx):
+    from .c24 import queues_unbounded
+    queues_unbounded(ctx, "T4-unbounded", ("ioflo.aio.proto.stacking",))
     ctx.rule("T2-drain", "the drain loop over txPkts has no early exit; deferred packets re-queued FIFO at the tail afterwards")
     ctx.rule("T1-blocked", "send dominated by `ha not in blockeds`; blocked => deferred once")
     ctx.rule("T2-linear", "each popped packet is sent or deferred exactly once per normal path")
@@ -92,6 +94,7 @@ def check(ctx):
     deferred_requeued(ctx, "T2-drain")
     once_keeps_order(ctx)
     txqueue_discipline_is_gramstacks(ctx, "GramStack", "T6-inherit")
+    datagram_send_reraises(ctx, "T10-sendraises")
     so = G.own_method("_serviceOneTxPkt")
 
     def send_may_raise(node):
@@ -211,7 +214,7 @@ def txqueue_discipline_is_gramstacks(ctx, base, rule):
         if C.module is not B.module:
             continue
         for m in TX_METHODS:
-            ctx.check(not any(isinstance(b, ast.FunctionDef) and b.name == m for b in C.node.body), rule, C.node,
+            ctx.check(not any(isinstance(b, ast.FunctionDef) and b.name == m and not transparent_override(b) for b in C.node.body), rule, C.node,
                       "%s inherits %s.%s" % (C.name, base, m),
                       "an override can defer, skip or re-order packets on its own terms (a packet deferred without marking its "
                       "destination blocked lets the next packet to that destination overtake it)")
@@ -248,3 +251,22 @@ def txqueue_rearranged_only_by_service(ctx, classes, rule):
                             "packets queued for the connections that stay open must keep their queue order: a clean-up that pops and "
                             "rotates the shared queue re-orders what is left for the other peers")
     ctx.floor(rule + ":methods", k, 20)
+
+
+def datagram_send_reraises(ctx, rule):
+    """GramStack decides from the *exception* of handler.send whether a packet is deferred: the datagram socket must let every
+    socket.error out (it may log it first)"""
+    ctx.rule(rule, "SocketUdpNb.send: every path through its `except socket.error` handler ends in a raise")
+    f = ctx.cls("udp.udping", "SocketUdpNb").own_method("send")
+    V = FuncView(ctx, f)
+    hs = [n for n in V.cfg.nodes if n.kind == "except" and (getattr(n.ast, "type", None) is None or
+                                                            (dotted(n.ast.type) or "").split(".")[-1] in ("error", "OSError", "Exception", "IOError"))]
+    V.need(hs, "except socket.error in SocketUdpNb.send")
+    raises = [n.id for n in V.cfg.nodes if n.kind == "raise"]
+    ok = True
+    for h in hs:
+        r = V.cfg.reachable(h.id, removed_nodes=raises)
+        ok = ok and V.cfg.exit.id not in r and not any(V.cfg.nodes[i].kind == "return" for i in r)
+    ctx.check(ok, rule, f, "SocketUdpNb.send re-raises socket errors",
+              "a send that reports a transient failure as `0 bytes sent` is taken for sent by the stack (it ignores the count): the "
+              "packet is dropped instead of deferred and the later packets to that destination are not held back")
